@@ -23,20 +23,22 @@ pub fn to_listing(
 
             let mut data = vec![];
             for offset in &offsets {
-                for segment in ctx.segments().values() {
-                    if segment.range().start <= offset.pc.start
-                        && segment.range().end >= offset.pc.end
-                    {
-                        let mut start = offset.pc.start - segment.range().start;
-                        let end = start + (offset.pc.end - offset.pc.start);
+                // The source map holds target addresses: take the bytes from the segment they were emitted to,
+                // at the place where that segment stores them (which differs for a relocated segment)
+                if let Some(segment) = ctx.segments().get(&offset.segment) {
+                    let stored_at = offset.pc.start as i64 - segment.target_offset();
+                    let first = stored_at - segment.range().start as i64;
+                    if first < 0 {
+                        continue;
+                    }
+                    let mut start = first as usize;
+                    let end = start + (offset.pc.end - offset.pc.start);
 
-                        let mut pc = offset.pc.start;
-                        while start < end {
-                            data.push((pc, segment.range_data()[start]));
-                            start += 1;
-                            pc += 1;
-                        }
-                        break;
+                    let mut pc = offset.pc.start;
+                    while start < end && start < segment.range_data().len() {
+                        data.push((pc, segment.range_data()[start]));
+                        start += 1;
+                        pc += 1;
                     }
                 }
             }
